@@ -26,6 +26,16 @@ type Scenario struct {
 	Beacon    string
 	Instances int
 	MaxRound  uint64 // executions stop (bound reached) when an honest participant exceeds this round
+	OddSupp   []int  // participants whose view of the supplemental data (next power table) differs from the others'
+}
+
+func (s *Scenario) oddSupp(i int) bool {
+	for _, x := range s.OddSupp {
+		if x == i {
+			return true
+		}
+	}
+	return false
 }
 
 func (s *Scenario) N() int { return len(s.Powers) }
@@ -150,6 +160,7 @@ var dust4 = []int64{1, 1_000_000, 1_000_000, 1_000_000}
 // coreScenarios: small set explored in the quick tier.
 func coreScenarios() []*Scenario {
 	return []*Scenario{
+		hon4odd,
 		sc("eq4-byz-agree", eq4, 3, nil, "b0", 2, []string{"aa", "aa", "aa", ""}),
 		sc("eq4-byz-split", eq4, 3, nil, "b1", 2, []string{"aa", "a", "f", ""}),
 		sc("eq4-byz-prefix", eq4, 3, nil, "b2", 2, []string{"aa", "aa", "a", ""}),
@@ -220,8 +231,14 @@ func policyPlans(thorough bool) []policyPlan {
 	return out
 }
 
+var hon4odd = func() *Scenario {
+	s := sc("hon4-odd-supplemental", eq4, -1, nil, "b0", 2, []string{"aa", "aa", "aa", "aa"})
+	s.OddSupp = []int{3}
+	return s
+}()
+
 func scenarioByName(name string) *Scenario {
-	for _, s := range append(append(coreScenarios(), moreScenarios()...), hon4split, hon4pref, w5lag, triBound, eq4part, eq4slow) {
+	for _, s := range append(append(coreScenarios(), moreScenarios()...), hon4split, hon4pref, w5lag, triBound, eq4part, eq4slow, hon4odd) {
 		if s.Name == name {
 			return s
 		}
